@@ -94,6 +94,82 @@ def poly_eq(pq, want, div):
     return a == b
 
 
+def _nbasis_by_evaluation(ctx, prog, nb):
+    """Decide Shell.nbasis by evaluating the getter's own code over a finite domain of (angmoms, kinds) constants.
+
+    Domain: every single contraction l in 0..9 with kind 'c', 'p' or an unknown letter, and every pair / selected
+    triples of contractions (generalized shells mixing Cartesian and pure).  Oracle: sum of (l+1)(l+2)/2 for 'c' and
+    2l+1 for 'p' with l >= 2; TypeError when any contraction is 'p' with l < 2 or has an unknown kind.
+    Returns False when the evaluator cannot run the code (the structural rule then decides).
+    """
+    from ..consteval import ConstEval, NotConstant, Raised, Record
+    import itertools
+
+    ce = ConstEval(prog)
+    ce.allow_raise = True
+
+    def oracle(ls, ks):
+        tot = 0
+        for l, k in zip(ls, ks):
+            if k == "c":
+                tot += (l + 1) * (l + 2) // 2
+            elif k == "p" and l >= 2:
+                tot += 2 * l + 1
+            else:
+                return "TypeError"
+        return tot
+
+    singles = [(l, k) for l in range(10) for k in ("c", "p", "x")]
+    domain = [([l], [k]) for l, k in singles]
+    small = [(l, k) for l in (0, 1, 2, 3) for k in ("c", "p", "x")]
+    domain += [([a[0], b[0]], [a[1], b[1]]) for a, b in itertools.product(small, repeat=2)]
+    domain += [([0, 1, 2], ["c", "c", "p"]), ([2, 3, 4], ["c", "p", "p"]), ([4, 2, 0], ["p", "p", "c"]), ([0, 0, 0], ["c", "c", "c"]), ([1, 2, 3], ["p", "p", "p"])]
+    bad = []
+    try:
+        for ls, ks in domain:
+            try:
+                got = ce.call_function(nb, [Record(angmoms=list(ls), kinds=list(ks))])
+            except Raised as r:
+                got = r.cls
+            want = oracle(ls, ks)
+            if got != want:
+                bad.append((ls, ks, got, want))
+    except NotConstant as exc:
+        ctx.note(f"Shell.nbasis could not be evaluated over the finite domain ({exc}); structural rule used instead")
+        return False
+    if bad:
+        ls, ks, got, want = bad[0]
+        ctx.violate("R6", f"Shell.nbasis evaluated on angmoms={ls}, kinds={ks} gives {got}, expected {want} ({len(bad)} of {len(domain)} domain points differ)", nb, nb.node, construct=f"nbasis({ls},{ks})")
+    else:
+        ctx.ok("R6", f"Shell.nbasis evaluated over {len(domain)} (angmoms, kinds) combinations: (l+1)(l+2)/2 per Cartesian, 2l+1 per pure (l >= 2) contraction, TypeError otherwise", f"{nb.module.relpath}:{nb.lineno}")
+        ctx.ok("R6", "any unknown kind, and a pure kind with l < 2, raise TypeError (same evaluation)", f"{nb.module.relpath}:{nb.lineno}")
+    return True
+
+
+def _inline_pred(prog, func, test):
+    """Source of a predicate after inlining a call to a module-level single-return helper."""
+    t = test
+    if isinstance(t, ast.Call) and isinstance(t.func, ast.Name):
+        r = prog.resolve_expr(func, func.module, t.func)
+        h = r[1] if r and r[0] == "func" else None
+        if h is not None:
+            rets = [n for n in h.own_nodes() if isinstance(n, ast.Return)]
+            if len(rets) == 1 and rets[0].value is not None and len(h.posparams) == len(t.args):
+                sub = {p: a for p, a in zip(h.posparams, t.args)}
+
+                class Sub(ast.NodeTransformer):
+                    def visit_Name(self, n):
+                        return sub.get(n.id, n)
+
+                import copy
+
+                e = Sub().visit(copy.deepcopy(rets[0].value))
+                if isinstance(e, ast.Call) and isinstance(e.func, ast.Name) and e.func.id == "bool" and len(e.args) == 1:
+                    e = e.args[0]
+                return src_of(e)
+    return src_of(t)
+
+
 def run(ctx):
     prog = ctx.prog
     ctx.clauses_decided = ["R1 validator schema", "R2 generalized refuses spin-resolved access", "R3 slice templates", "R4 setters write both stored fields consistently", "R5 derived counts", "R6 nbasis dispatch"]
@@ -232,6 +308,29 @@ def run(ctx):
     else:
         ctx.violate("R3", "restricted occsa/occsb heuristic branches no longer sum to occs (clip / occs - clip / occs/2)", ga, ga.node, construct="occs heuristic branches")
 
+    # sibling agreement: the integer-occupation heuristic is written three times (occsa, occsb, spinpol); the copies
+    # must decide with the same predicate (one level of helper calls is inlined before comparing)
+    preds = {}
+    for nm in ("occsa", "occsb", "spinpol"):
+        g = mo.getters.get(nm)
+        if g is None:
+            continue
+        outer = [n for n in g.own_nodes() if isinstance(n, ast.If) and src_of(n.test) == "self.occs_aminusb is None"]
+        inner = [n for o in outer for n in o.body if isinstance(n, ast.If)]
+        if len(inner) != 1:
+            ctx.violate("R3", f"{nm}: cannot find the single heuristic test under `self.occs_aminusb is None`", g, g.node, construct=f"{nm} heuristic test")
+            continue
+        preds[nm] = (_inline_pred(prog, g, inner[0].test), inner[0], g)
+    if len(preds) == 3:
+        texts = {nm: v[0] for nm, v in preds.items()}
+        if len(set(texts.values())) == 1:
+            ctx.ok("R3", f"occsa, occsb and spinpol decide open-shell vs natural-orbital with the same predicate `{texts['occsa'][:60]}`", f"{ga.module.relpath}:{preds['occsa'][1].lineno}")
+        else:
+            ref = texts["occsa"] if texts["occsa"] == texts["occsb"] else None
+            for nm, (t, node, g) in preds.items():
+                if (ref is not None and t != ref) or (ref is None and nm != "spinpol"):
+                    ctx.violate("R3", f"{nm} decides the restricted heuristic with `{t[:70]}` while its siblings use a different predicate ({ {k: v[:40] for k, v in texts.items() if k != nm} }): occsa/occsb/spinpol then disagree for some occupations", g, node)
+
     # ------------------------------------------------------------------ R4
     ctx.rule("R4", "alpha/beta occupation setters keep occs and occs_aminusb consistent", "assigning one spin changes the other, or the stored sum/difference disagree")
     for side, other in (("a", "b"), ("b", "a")):
@@ -281,9 +380,14 @@ def run(ctx):
     nb = sh.getters.get("nbasis")
     if nb is None:
         raise AnalysisError("Shell.nbasis not found")
+    decided = _nbasis_by_evaluation(ctx, prog, nb)
     loop = [n for n in nb.own_nodes() if isinstance(n, ast.For)]
-    okloop = len(loop) == 1 and src_of(loop[0].iter) == "zip(self.angmoms, self.kinds)" and isinstance(loop[0].target, ast.Tuple)
-    if not okloop:
+    if decided:
+        loop = None
+    okloop = loop is not None and len(loop) == 1 and src_of(loop[0].iter) == "zip(self.angmoms, self.kinds)" and isinstance(loop[0].target, ast.Tuple)
+    if decided:
+        pass
+    elif not okloop:
         ctx.violate("R6", "nbasis does not iterate zip(self.angmoms, self.kinds)", nb, nb.node, construct="nbasis loop")
     else:
         lv, kv = (e.id for e in loop[0].target.elts)
